@@ -70,7 +70,7 @@ vars == <<kind, beh, hold, launched, exec, active, timer, cmd, child, how, grand
           sent, procd, btt, hs, rel, vstart, panBy, termBy, doneBy, killBy, closeBy, skDone, killAt, rpc, lpc, dev, nreq, cnt, rst, rfin>>
 
 Requests == {"CONFIGURE", "START", "STOP", "Trigger", "Kill"}
-NoReq == [r |-> "none", inst |-> "none", nth |-> 0]
+NoReq == [r |-> "none", inst |-> "none", nth |-> 0, late |-> FALSE]
 
 Terminal(x) == x \in {"FINISHED", "FAILED", "KILLED"}
 RemoveAt(q, i) == [j \in 1..(Len(q) - 1) |-> IF j < i THEN q[j] ELSE q[j + 1]]
@@ -109,8 +109,12 @@ InitState(k, b, h) ==
    moment later (crash in its shutdown path), donesig dies by a signal a moment later; sleep / ignore / fork outlive
    the grace period and have to be signalled; nodone refuses EXIT (never reaches DONE) and exits 3 on TERM *)
 BehsOf(k) == IF k = "ctl" THEN Behs \cap {"sleep", "ignore", "fork", "exit0", "exit3", "noready", "stuck",
-                                          "done0", "done3", "donesig", "nodone"}
+                                          "done0", "done3", "donesig", "nodone", "fmq", "midstate"}
                           ELSE Behs \cap {"sleep", "ignore", "fork", "exit0", "exit3", "crash"}
+(* fmq: a FairMQ device (control mode FAIRMQ), otherwise like sleep; midstate: a FairMQ device that, once it was seen
+   IDLE and the task reported RUNNING, sits in an intermediate FairMQ state (GetState maps it to no state at all:
+   nextTransition yields an empty event, the walk to DONE stops there) *)
+Walkable(d) == d \notin {"INIT", "MID"}
 
 (* ----- the instant of the child's life, from what has been observable so far ----- *)
 Has(q, x) == \E i \in 1..Len(q) : q[i] = x
@@ -161,7 +165,8 @@ DoReq(s, r) ==
     THEN LET q == [r |-> r, inst |-> Inst(s), nth |-> s.cnt[r] + 1] IN
          IF s.active
            THEN {[s EXCEPT !.nreq = @ + 1, !.cnt[r] = @ + 1,
-                           !.hs = Append(@, [r |-> r, inst |-> q.inst, nth |-> q.nth, pc |-> "body", reached |-> "", err |-> FALSE])]}
+                           !.hs = Append(@, [r |-> r, inst |-> q.inst, nth |-> q.nth, pc |-> "body", reached |-> "", err |-> FALSE,
+                                            late |-> HasTerminal(s.sent)])]}
            ELSE {[s EXCEPT !.nreq = @ + 1]}
     ELSE {}
 Delivered(s) == s.active
@@ -191,7 +196,7 @@ DoTimer(s) ==
 Drop(s, i) == [s EXCEPT !.hs = RemoveAt(@, i)]
 (* whom to blame for what handler i does now: the request, and the instant at which it takes effect
    (for a handler that runs at once - every generated scenario - the instant at which it arrived) *)
-ReqOf(s, i) == [r |-> s.hs[i].r, inst |-> Inst(s), nth |-> s.hs[i].nth]
+ReqOf(s, i) == [r |-> s.hs[i].r, inst |-> Inst(s), nth |-> s.hs[i].nth, late |-> s.hs[i].late]
 (* a Kill starts acting on a task whose child has not gone away on its own: from here on FAILED is wrong *)
 KillAt(s) == IF s.killAt = 0 /\ ~s.rel /\ ~(s.beh = "crash" /\ s.child # "none") /\ s.child \in {"none", "running"}
                THEN Len(s.sent) + 1 ELSE s.killAt
@@ -312,7 +317,8 @@ DoLDialTimeout(s) ==
 DoLPoll(s) ==
   IF s.kind = "ctl" /\ s.lpc = "poll" /\ Ok(s)
     THEN IF s.rpc = "nil" THEN {[s EXCEPT !.exec = "panicked", !.panBy = s.closeBy, !.lpc = "dead"]}
-         ELSE IF Listening(s) /\ s.dev = "STANDBY" THEN {[s EXCEPT !.lpc = "wait", !.sent = Append(@, "RUNNING")]}
+         ELSE IF Listening(s) /\ s.dev = "STANDBY"
+           THEN {[s EXCEPT !.lpc = "wait", !.sent = Append(@, "RUNNING"), !.dev = IF s.beh = "midstate" THEN "MID" ELSE @]}
          ELSE {}
     ELSE {}
 (* ... 30 s without STANDBY: FAILED, client closed, return (the child is neither waited for nor signalled) *)
@@ -360,11 +366,11 @@ DoKBody(s, i) ==
                   walked == [s EXCEPT !.dev = "DONE", !.hs[i].pc = "close", !.hs[i].reached = "DONE", !.killAt = KillAt(s), !.killBy = kb]
                   broke == [s EXCEPT !.hs[i].pc = "close", !.hs[i].reached = "OTHER", !.killAt = KillAt(s), !.killBy = kb]
                   \* a child told to exit may still answer; two Kills walking the device at once trip over each other
-                  maybe == MaybeAlive(s) /\ s.dev # "INIT"
+                  maybe == MaybeAlive(s) /\ Walkable(s.dev)
                   other == \E j \in 1..Len(s.hs) : j # i /\ s.hs[j].r = "Kill"
               IN IF Listening(s) /\ s.beh = "nodone"
                    THEN {[broke EXCEPT !.dev = "STANDBY"]}         \* STOP / RESET obeyed, EXIT refused
-                 ELSE IF Listening(s) /\ s.dev # "INIT"
+                 ELSE IF Listening(s) /\ Walkable(s.dev)
                    THEN IF other THEN {walked, [broke EXCEPT !.dev = "DONE"]} ELSE {walked}
                    ELSE IF maybe THEN {walked, broke} ELSE {broke}
     ELSE {}
@@ -493,7 +499,9 @@ NoSurvivors == skDone => child # "running" /\ ~grand
 ExecutorSurvives == exec = "ok"
 
 (* the same, except for the violation classes recorded as open findings *)
-Class(inv, q) == <<inv, kind, beh, q.r, q.inst, IF q.nth > 2 THEN 2 ELSE q.nth>>   \* nth: first / repeated
+(* nth: 1 first request of its type / 2 repeated while nothing terminal had been reported yet (back to back)
+        / 3 repeated after a terminal status had already been handed to the event loop *)
+Class(inv, q) == <<inv, kind, beh, q.r, q.inst, IF q.nth <= 1 THEN q.nth ELSE IF q.late THEN 3 ELSE 2>>
 OneTerminalX == OneTerminal \/ Class("OneTerminal", termBy) \in Known
 KilledNotFailedX == KilledNotFailed \/ Class("KilledNotFailed", killBy) \in Known
 NoSurvivorsX == NoSurvivors \/ Class("NoSurvivors", doneBy) \in Known
